@@ -585,7 +585,9 @@ class Parser:
                 raise FFIError(
                     "multiple declarations of %s (for interactive usage, "
                     "try cdef(xx, override=True))" % (name,))
-        assert '__dotdotdot__' not in name.split()
+        if '__dotdotdot__' in name.split():
+            raise CDefError('bad usage of "..." in the declaration of %s'
+                            % (name.replace('__dotdotdot__', '...'),))
         self._declarations[name] = (obj, quals)
         if included:
             self._included_declarations.add(obj)
